@@ -1,10 +1,10 @@
 package main
 
 import (
-	"math"
 	"fmt"
 	"go/token"
 	"go/types"
+	"math"
 	"os"
 	"strings"
 
